@@ -65,6 +65,12 @@ Definition drain (e : bool) (s : cst) : cst :=
   crun s (flat_map (fun _ => [PollOne e; LoopAdd e; LoopCheck e]) (cqueue_to e s)).
 Definition cwith_wake (e : bool) (s s1 : cst) : cst :=
   if (length (cqueue_to (negb e) s) <? length (cqueue_to (negb e) s1))%nat then drain (negb e) s1 else s1.
+(* the peer's loop handles the socket events that an op produced (the harness waits for that): for each
+   item first everything queued (62f988f), then the item itself *)
+Definition settle_sock (e : bool) (s : cst) : cst :=
+  fold_left (fun s1 _ => cstep' (drain e s1) (SockStep e)) (sock_to e s) s.
+Definition settle (s : cst) : cst := settle_sock true (settle_sock false s).
+
 Definition on_obj (e : bool) (sid : nat) (s : cst) (f : nat -> option cst) : option cst :=
   match tbl s (key e sid) with Some o => f o | None => Some s end.
 Definition opt_or (s : cst) (r : option cst) : option cst := match r with Some x => Some x | None => Some s end.
@@ -73,15 +79,15 @@ Definition crun_hop (s : cst) (o : hop) : option cst :=
   match o with
   | HL (Open sid) => cstep s (COpen sid)
   | HL (Write e sid new heap) => match tbl s (key e sid) with Some ob => cstep s (CWrite ob new heap) | None => None end
-  | HL (Flush e sid sizes wpos) => on_obj e sid s (fun ob => opt_or s (cstep s (CFlush ob sizes wpos)))
+  | HL (Flush e sid sizes wpos) => on_obj e sid s (fun ob => Some (settle (cstep' s (CFlush ob sizes wpos))))
   | HFlush e sid sizes wpos =>
-      on_obj e sid s (fun ob => Some (cwith_wake e s (cstep' s (CFlush ob sizes wpos))))
+      on_obj e sid s (fun ob => Some (settle (cwith_wake e s (cstep' s (CFlush ob sizes wpos)))))
   | HL (Poll e) => Some (drain e s)
   | HL (Read e sid kind k) => on_obj e sid s (fun ob => Some (crun s [MoveTo ob; ReadK ob kind k]))
   | HL (Release e sid) => on_obj e sid s (fun ob => Some (cstep' s (CRelease ob)))
   | HL (Reuse e sid) => on_obj e sid s (fun ob => Some (cstep' s (CReuse ob)))
-  | HL (Close e sid) => on_obj e sid s (fun ob => Some (crun s (repeat (CloseStep ob) 6)))
-  | HClose e sid => on_obj e sid s (fun ob => Some (cwith_wake e s (crun s (repeat (CloseStep ob) 6))))
+  | HL (Close e sid) => on_obj e sid s (fun ob => Some (settle (crun s (repeat (CloseStep ob) 6))))
+  | HClose e sid => on_obj e sid s (fun ob => Some (settle (cwith_wake e s (crun s (repeat (CloseStep ob) 6)))))
   | HL (ExtHold new) => cstep s (CExtHold new)
   | HL ExtReturn => cstep s CExtReturn
   | HL (Inject t sid chain) => cstep s (CInject t sid chain)
